@@ -279,7 +279,7 @@ Lemma roundtrip_trash_pending : forall sid e e', roundtrip sid e = Some e' ->
   is_trash e' = is_trash e /\ pending e' = pending e.
 Proof.
   intros sid e e' H. rewrite roundtrip_char in H. destruct (survives e); [|discriminate].
-  injection H as <-. unfold is_trash, pending, norm_entry, norm_side. cbn.
+  injection H as <-. unfold is_trash, pending, pending_side, norm_entry, norm_side. cbn.
   now rewrite !is_nil_tuplify, !truthy_tuplify.
 Qed.
 
